@@ -52,13 +52,9 @@ let show_sres (r : sres) : string = match r with
   | S_BadIndex -> "BADINDEX"
 
 let show_finding (k : finding) : string = match k with
-  | KfAppendOpenOffset -> "KfAppendOpenOffset"
-  | KfZeroLenRead -> "KfZeroLenRead" | KfZeroLenReadAt -> "KfZeroLenReadAt" | KfZeroLenWrite -> "KfZeroLenWrite"
-  | KfZeroLenWriteAt -> "KfZeroLenWriteAt" | KfWriteAtAppend -> "KfWriteAtAppend" | KfClosedPriority -> "KfClosedPriority"
-  | KfUnlinkDropsData -> "KfUnlinkDropsData"
-let show_dfinding (k : dfinding) : string = match k with
-  | KfDirRestart -> "KfDirRestart" | KfDirAllAfterPartial -> "KfDirAllAfterPartial" | KfDirMixedCursors -> "KfDirMixedCursors"
-  | KfDirSeek -> "KfDirSeek" | KfDirZeroLenRead -> "KfDirZeroLenRead"
+  | KfWriteAtAppend -> "KfWriteAtAppend" | KfDirRestart -> "KfDirRestart" | KfDirAllAfterPartial -> "KfDirAllAfterPartial"
+  | KfDirMixedCursors -> "KfDirMixedCursors" | KfDirSeek -> "KfDirSeek"
+let show_dfinding = show_finding
 
 let names_universe = List.map str_of_string ["a"; "b"]
 
